@@ -391,7 +391,7 @@ harness!(none, 24, c09_count_protein_n2_w2, count_body2::<Protein, 2>());
 harness!(none, 8, c09_count_unequal, unequal_body());
 //@ C09 quick 800 to_weight + to_scoring (one-step == two-step) + bases 10 and 3, 1 row, counts in {0,1}, pseudocount 0.5, symbolic background k/8
 log_harness!(8, c09_weight_score_small_m1, weight_score_small_body::<1>());
-//@ C09 thorough 10800 to_freq: 1 row, counts <= 7, pseudocount vector k/4 (k <= 4) and scalar pseudocount
+//@ C09 quick 800 to_freq: 1 row, counts <= 7, pseudocount vector k/4 (k <= 4) and scalar pseudocount
 harness!(none, 8, c09_freq_m1, freq_body::<1>());
 //@ C09 thorough 10800 to_freq: 2 rows
 harness!(none, 8, c09_freq_m2, freq_body::<2>());
